@@ -310,11 +310,72 @@ class Harness:
         return (self.refstate(w), w.last)
 
 
+def many_classes_case(case):
+    """Hundreds of agent classes (a chain and a fan) and hundreds of component types: each class holds exactly what was
+    attached to it and its own default tag."""
+    from mc.engine.seams import reset_library
+    reset_library()
+    n = case['n']
+    m = new_model(seed=1)
+    types = [type(f'T{i}', (Core.Component,), {}) for i in range(n)]
+    base = type('Base', (Core.Agent,), {})
+    chain = [base]
+    for i in range(n):
+        chain.append(type(f'Chain{i}', (chain[-1],), {}))
+    fan = [type(f'Fan{i}', (base,), {}) for i in range(n)]
+    held = {}
+    for i, cls in enumerate(chain + fan):
+        mine = [types[(i * 7 + k) % n] for k in range(i % 4)]
+        for T in mine:
+            cls.add_class_component(T(cls, m))
+        if i % 5 == 0:
+            cls.tag = i
+        held[cls] = (mine, i if i % 5 == 0 else 0)
+    big = type('Big', (base,), {})
+    for T in types:
+        big.add_class_component(T(big, m))
+    held[big] = (list(types), 0)
+    q = 0
+    for cls, (mine, tag) in held.items():
+        q += 1
+        if list(cls.components) != mine or len(cls) != len(mine) or cls.tag != tag:
+            raise Violation(f'{cls.__name__} among {2 * n + 2} classes: class components / default tag',
+                            expected=[[t.__name__ for t in mine], tag],
+                            observed=[[t.__name__ for t in cls.components], cls.tag])
+        for T in (types[0], types[n // 2], types[-1]):
+            if (T in cls) != (T in mine) or cls.has_class_component(T) != (T in mine):
+                raise Violation(f'{cls.__name__}: {T.__name__} in class', expected=T in mine, observed=T in cls)
+        inst = cls('i', m)
+        if inst.tag != tag or len(inst.components) != 0:
+            raise Violation(f'{cls.__name__}: a new instance', expected=[tag, 0], observed=[inst.tag, len(inst.components)])
+    for T in types[::17]:
+        try:
+            big.add_class_component(T(big, m))
+        except ValueError:
+            pass
+        else:
+            raise Violation(f'Big: duplicate attach of {T.__name__} accepted')
+        big.remove_class_component(T)
+        if T in big or len(big) != n - 1:
+            raise Violation(f'Big: {T.__name__} still attached after removal')
+        big.add_class_component(T(big, m))
+    return q
+
+
 # the cheap legs run once more under the runner's ambient configurations (python -O, other logger levels)
 AMBIENT_LEGS = True
 
 
 def run(ctx):
+    case = {'leg': 'many_classes', 'n': 40 if ctx.small else 400}
+    ctx.traces += 1
+    try:
+        ctx.transitions += hbfs._guard(many_classes_case, case)
+        ctx.outcome(('many_classes', case['n']))
+    except Violation as v:
+        ctx.report(case, v)
+        return
+    ctx.leg('many_classes', note='a chain and a fan of 400 classes each, 400 component types, one class holding all of them')
     depth = 2 if ctx.small else 3 if ctx.tier == 'quick' else 4
     h = Harness()
     r = hbfs.explore(ctx, h, 'hierarchy', max_depth=depth, procs=ctx.procs)
@@ -340,6 +401,9 @@ def run(ctx):
 
 
 def replay(case):
+    if case['leg'] == 'many_classes':
+        hbfs._guard(many_classes_case, case)
+        return
     c = case['config']
     hbfs.replay_case(Harness(c.get('op_classes'), c.get('op_types', ('X', 'Y')), c.get('subclassing', True),
                              c.get('extras', False)), case)
